@@ -170,6 +170,12 @@ def programs(chk):
         if gen_scope.accepted(s):
             add("scopes", s)
             n += 1
+    # comprehensions below function chains: the symbol tables of a 3.12+ HOST fold a comprehension into its function, those of
+    # 3.10 / 3.11 do not - the converter must reach the same resolution on every host
+    compchains = [gen_scope.render(t) for t in gen_scope.chain_trees() if gen_scope.has_kind(t, "comp")]
+    compchains = [c for c in (compchains if big else rng.sample(compchains, 60)) if gen_scope.accepted(c)]
+    for c in compchains:
+        add("comprehensions below function chains (host-dependent symbol tables)", c)
     for _ in range(200 if big else 25):
         body, _ = gen_order.program(rng)
         add("probe-programs", gen_order.PRELUDE + body + "\n")
